@@ -32,6 +32,17 @@ Theorem build_order_free : forall o1 o2 r1 r2, valid o1 -> valid o2 -> wf_net r1
 Proof. exact build_order_free_lemma. Qed.
 Print Assumptions build_order_free.
 
+(* Exports are functions of the CURRENT model, not of the history of reads: whatever exports and
+   getter calls (each with its own map iteration orders) were interleaved with the changes, the
+   three exports equal those of the model that received the changes alone.  For the (pure) model
+   this is immediate; its content is the correspondence run, which executes such histories on the
+   implementation (props/C15/NOTES.md). *)
+Theorem export_history_free : forall evs s o1 o2, valid o1 -> valid o2 ->
+  wf_net (hrun (changes_only evs) s) ->
+  outputs o1 (hrun evs s) = outputs o2 (hrun (changes_only evs) s).
+Proof. exact export_history_free_lemma. Qed.
+Print Assumptions export_history_free.
+
 (* Underlying fact: the getters return the same walked network. *)
 Theorem walk_canonical : forall o1 o2, valid o1 -> valid o2 ->
   forall r1 r2, net_equiv r1 r2 -> wf_net r1 -> walk o1 r1 = walk o2 r2.
